@@ -795,8 +795,8 @@ int main(int argc, char **argv)
     runSeq({ "E", "N", "m", "R=" }, true);                // witness of the defect fixed by repo commit 6d4ec74: <resume h/> counted a stanza received on a session without SM
     runSeq({ "E", "I", "Jr", "q" }, true);                // a response to a tracked request is a stanza of the session: <a h=1/>
     runSeq({ "E", "I", "I", "Je", "L", "R=", "Jr", "q" });
-    runSeq({ "E", "s", "s", "L", "R-r", "s", "a=" }, true);   // witness of the defect fixed by 250563e: a delivery report fired by <resumed/> sends a stanza (was: written before the resent ones, not numbered)
-    runSeq({ "E", "s", "s", "s", "L", "Eh-", "a=" }, true);   // witness of the defect fixed by 7bf4745: <failed h='2'/> was ignored, the two handled stanzas were transmitted again
+    runSeq({ "E", "s", "s", "L", "R-r", "s", "a=" }, true);   // witness of the defect fixed by 8fe1a13: a delivery report fired by <resumed/> sends a stanza (was: written before the resent ones, not numbered)
+    runSeq({ "E", "s", "s", "s", "L", "Eh-", "a=" }, true);   // witness of the defect fixed by 29f1a4c: <failed h='2'/> was ignored, the two handled stanzas were transmitted again
     runSeq({ "E2", "s", "s", "L", "R2-", "s", "L", "E2h=", "a=" }, true);  // SASL2 inline <resume/>, Bind2 inline <enable/>
     runSeq({ "E", "s", "s", "a+r", "a=", "L", "R2=r" });
     runSeq({ "E", "s", "s", "s", "L", "Eh-r", "s", "a=" }, true);  // covered by <failed h/>: reported after the resend, their continuations send numbered stanzas
@@ -822,6 +822,13 @@ int main(int argc, char **argv)
             for (const char *c = q;; c++) { if (*c == ' ' || !*c) { if (!w.empty()) syms.push_back(w); w.clear(); if (!*c) break; } else w += *c; }
             runSeq(syms, true);
         }
+        finish();
+        return 0;
+    }
+    if (a.mode == "bench2") {  // small but complete alphabet mix, used for mutation experiments
+        const std::vector<std::string> m = { "s", "I", "Jr", "a=r", "a-", "a+r", "q", "m", "x", "L", "R-r", "R2-", "Eh-r", "E2h-", "Cr", "E" };
+        stat("exh_bench2", enumerate(m, 4));
+        wrapProbe();
         finish();
         return 0;
     }
